@@ -1099,7 +1099,8 @@ func OpCoq(o OpObs, memoTerm string) string {
 		if o.AppPanic {
 			return "OAppPanics"
 		}
-		if o.ExtPanic {
+		if o.ExtPanic && o.Recv.Class == ClassPanic {
+			// (a panic of the Hyperlane handler is recovered by its controller and is a failed call like any other)
 			// the verdicts of the calls before the one that panicked; the model cuts its own trace after that one
 			return fmt.Sprintf("OExtPanics %s %s %s %d%%nat", PacketCoq(o.Op.Pkt, memoTerm), boolsCoq(verdicts[:len(verdicts)-1]), cq.ZI(o.Op.Lie), len(verdicts))
 		}
